@@ -3,6 +3,7 @@ module verifharness
 go 1.14
 
 require (
+	github.com/golang/protobuf v1.4.3
 	github.com/hashicorp/memberlist v0.2.2
 	github.com/vx-labs/mqtt-protocol v5.1.1+incompatible
 	github.com/vx-labs/wasp/v4 v4.0.0
